@@ -11,14 +11,14 @@ Import ListNotations.
 From Onet Require Export Base.Corr Overlay.Robust.
 
 (* which repairs the code under /repo currently contains *)
-Definition code_fixed_F05 := false.
-Definition code_fixed_F06 := false.
-Definition code_fixed_F07 := false.
-Definition code_fixed_F08 := false.
-Definition code_fixed_F26 := false.
-Definition code_fixed_F70 := false.
+Definition code_fixed_F05 := true.
+Definition code_fixed_F06 := true.
+Definition code_fixed_F07 := true.
+Definition code_fixed_F08 := true.
+Definition code_fixed_F26 := true.
+Definition code_fixed_F70 := true.
 Definition code_fixed_F71 := false.
-Definition code_fixed_F72 := false.
+Definition code_fixed_F72 := true.
 Definition code_fixes : fixes :=
   mkFixes code_fixed_F05 code_fixed_F06 code_fixed_F07 code_fixed_F08 code_fixed_F26
           code_fixed_F70 code_fixed_F71 code_fixed_F72.
